@@ -20,7 +20,7 @@ def canon(d):
 
 
 def rand_string(rng):
-    alphabet = [chr(c) for c in range(0, 32)] + list("'\"\\ab $`{}:,") + ["\x7f", "é", " ", "\U0001F600", "�", "Ā"]
+    alphabet = [chr(c) for c in range(0, 32)] + list("'\"\\ab $`{}:,") + ["\x7f", "\u00e9", " ", "\U0001F600", "\ufffd", "\u0100", "\U000E0001", "\U0010FFFF", "\u200b", "\ufeff", "\x85"]
     return "".join(rng.choice(alphabet) for _ in range(rng.randrange(0, 6)))
 
 
@@ -64,7 +64,8 @@ def gen_cases(rng, tier):
     P = pool.base_pool()
     out = [("pool " + k, P[k]) for k in sorted(P)]
     # every control character, quotes and backslash alone and in context
-    for c in list(range(0, 33)) + [34, 39, 92, 96, 127, 0xe9, 0x2028, 0x1F600]:
+    for c in list(range(0, 33)) + [34, 39, 92, 96, 127, 0x80, 0x9f, 0xa0, 0xad, 0xe9, 0x200b, 0x2028, 0x2029, 0xfeff, 0xfffd, 0xe000,
+                                   0x1F600, 0x10000, 0xE0001, 0xE007F, 0xF0000, 0x10FFFF, 0x1D173]:
         out.append(("char %d" % c, X.string(chr(c))))
         out.append(("charctx %d" % c, X.string("a" + chr(c) + "b'")))
         out.append(("name %d" % c, X.tup([(chr(c) + "k", N(1))])))
